@@ -38,6 +38,9 @@ def jobs(tier, seed):
                   gseed=seed + 2, scheds=2, lazy=[0, 60], p_fail=0.1, name="int-barrier-smaller-than-fan-in")
     # decision-shape family (exhaustive in the thorough tier, a rotating slice in the quick tier): every acyclic edge set over 4 tasks with a join x condition succeeded/failed per edge x outcome per task (4128 definitions)
     js += family_slices("orders", 4128, 128, tier, seed, parts=2, gen="cshape", p_fail=0.0, max_orders=120, max_completions=6, name="decision-shapes-orders")
+    # pause (+ resume after rest) at every position: a join left partial must still end in the unreachable-join failure
+    js += family_slices("ctl_sweep", 4128, 24, tier, seed + 1, parts=12, gen="cshape", modes=["pause"], p_fail=0.0,
+                        name="decision-shapes-pause-sweep")
     js += family_slices("parked", 4128, 64, tier, seed, parts=4, gen="cshape", p_park=50, scheds=2, p_fail=0.0,
                         name="decision-shapes-with-waiting-inbound-tasks")
     # inbound tasks of a join that wait at the provider (pending / paused): the join stays satisfiable while they wait
